@@ -205,6 +205,8 @@ def run(ctx):
     ctx.do(rule_no_hidden_state, "C10.history-independence")
     from .pitfalls import rule_loops_not_cut_short
     ctx.do(rule_loops_not_cut_short, "C10.loops-complete")
+    from .pitfalls import rule_definite_assignment
+    ctx.do(rule_definite_assignment, "C10.definite-assignment")
 
 
 def grammar_dir():
